@@ -818,4 +818,587 @@ example : sumSq (inSystemSphere [((⟨1,0,0⟩ : V3 ℝ), (⟨1,1,1⟩ : V3 ℝ)
   rcases hrow with rfl | rfl | rfl | rfl | rfl | rfl <;>
     (simp only [Row.resid, V3.dot_eq, Scalar.lit_real]; norm_num)
 
+/-! ## 7. minimal bounding ball: the optimality certificate of a miniball result -/
+
+/-- what the per-run contract check establishes about a miniball result `(c, r)` for the points
+`pts` (cf. `BallSpec.certificate`): it contains all points, and `c` is a convex combination
+(weights `s.1 ≥ 0`, sum 1) of points `s.2 ∈ pts` lying exactly on the sphere. -/
+structure IsCertificate (pts : List (V3 ℝ)) (c : V3 ℝ) (r : ℝ) (sup : List (ℝ × V3 ℝ)) : Prop where
+  bounding : IsBounding c r pts
+  mem : ∀ s ∈ sup, s.2 ∈ pts
+  onSphere : ∀ s ∈ sup, dist s.2 c = r
+  nonneg : ∀ s ∈ sup, 0 ≤ s.1
+  sum_one : (sup.map fun s => s.1).sum = 1
+  comb : V3.sum (sup.map fun s => V3.smul s.1 s.2) = c
+
+/-- `Σ λᵢ‖pᵢ − c'‖² = Σ λᵢ‖pᵢ − c‖² + 2 (Σλᵢpᵢ − (Σλᵢ) c)·(c − c') + (Σλᵢ)‖c − c'‖²` -/
+theorem weighted_shift (sup : List (ℝ × V3 ℝ)) (c c' : V3 ℝ) :
+    (sup.map fun s => s.1 * V3.normSq (s.2 - c')).sum =
+      (sup.map fun s => s.1 * V3.normSq (s.2 - c)).sum
+      + 2 * (((sup.map fun s => s.1 * s.2.x).sum - (sup.map fun s => s.1).sum * c.x) * (c.x - c'.x)
+           + ((sup.map fun s => s.1 * s.2.y).sum - (sup.map fun s => s.1).sum * c.y) * (c.y - c'.y)
+           + ((sup.map fun s => s.1 * s.2.z).sum - (sup.map fun s => s.1).sum * c.z) * (c.z - c'.z))
+      + (sup.map fun s => s.1).sum * V3.normSq (c - c') := by
+  induction sup with
+  | nil => simp
+  | cons s sup ih =>
+    simp only [List.map_cons, List.sum_cons, ih]
+    simp only [V3.normSq_eq, V3.sub_x, V3.sub_y, V3.sub_z]
+    ring
+
+theorem weighted_le (sup : List (ℝ × V3 ℝ)) (f : V3 ℝ → ℝ) (M : ℝ)
+    (h : ∀ s ∈ sup, 0 ≤ s.1 ∧ f s.2 ≤ M) :
+    (sup.map fun s => s.1 * f s.2).sum ≤ (sup.map fun s => s.1).sum * M := by
+  induction sup with
+  | nil => simp
+  | cons s sup ih =>
+    simp only [List.map_cons, List.sum_cons]
+    have h1 := h s List.mem_cons_self
+    have h2 := ih fun t ht => h t (List.mem_cons_of_mem _ ht)
+    nlinarith [mul_le_mul_of_nonneg_left h1.2 h1.1]
+
+theorem weighted_const (sup : List (ℝ × V3 ℝ)) (f : V3 ℝ → ℝ) (M : ℝ) (h : ∀ s ∈ sup, f s.2 = M) :
+    (sup.map fun s => s.1 * f s.2).sum = (sup.map fun s => s.1).sum * M := by
+  induction sup with
+  | nil => simp
+  | cons s sup ih =>
+    simp only [List.map_cons, List.sum_cons]
+    rw [ih fun t ht => h t (List.mem_cons_of_mem _ ht), h s List.mem_cons_self]; ring
+
+/-- **C13 minimality certificate.** A ball that contains all the points and whose centre is a convex
+combination of points at distance exactly `r` is THE minimal enclosing ball: every ball containing
+the points has radius `≥ r` (`Σλᵢ‖pᵢ−c'‖² = r² + ‖c−c'‖² ≥ r²`). -/
+theorem miniball_optimal (pts : List (V3 ℝ)) (c : V3 ℝ) (r : ℝ) (sup : List (ℝ × V3 ℝ))
+    (h : IsCertificate pts c r sup) : IsMinimalBounding c r pts := by
+  refine ⟨h.bounding, ?_⟩
+  intro c' r' hb
+  -- the support is not empty
+  have hne : sup ≠ [] := by
+    intro h0; have := h.sum_one; rw [h0] at this; simp at this
+  obtain ⟨s0, hs0⟩ := List.exists_mem_of_ne_nil sup hne
+  have hr : 0 ≤ r := by rw [← h.onSphere s0 hs0]; exact V3.norm_nonneg _
+  have hr' : 0 ≤ r' := le_trans (V3.norm_nonneg _) (hb s0.2 (h.mem s0 hs0))
+  -- components of the convex combination
+  have hx : (sup.map fun s => s.1 * s.2.x).sum = c.x := by
+    have := congrArg V3.x h.comb
+    rw [V3.sum_x, List.map_map] at this
+    simpa [Function.comp_def] using this
+  have hy : (sup.map fun s => s.1 * s.2.y).sum = c.y := by
+    have := congrArg V3.y h.comb
+    rw [V3.sum_y, List.map_map] at this
+    simpa [Function.comp_def] using this
+  have hz : (sup.map fun s => s.1 * s.2.z).sum = c.z := by
+    have := congrArg V3.z h.comb
+    rw [V3.sum_z, List.map_map] at this
+    simpa [Function.comp_def] using this
+  have hshift := weighted_shift sup c c'
+  rw [hx, hy, hz, h.sum_one] at hshift
+  have hconst := weighted_const sup (fun p => V3.normSq (p - c)) (r * r) (by
+    intro s hs
+    have := h.onSphere s hs
+    unfold BallSpec.dist at this
+    rw [← V3.norm_mul_self, this])
+  rw [h.sum_one] at hconst
+  have hle := weighted_le sup (fun p => V3.normSq (p - c')) (r' * r') (by
+    intro s hs
+    refine ⟨h.nonneg s hs, ?_⟩
+    have := hb s.2 (h.mem s hs)
+    unfold InBall BallSpec.dist at this
+    exact (V3.norm_le_iff _ hr').mp this)
+  rw [h.sum_one] at hle
+  have hnn := V3.normSq_nonneg (c - c')
+  have hsq : r * r ≤ r' * r' := by nlinarith
+  by_contra hlt
+  push Not at hlt
+  nlinarith
+
+/-- two antipodal points: the certificate `½·p + ½·q` of the ball on the segment as diameter -/
+example : IsCertificate [(⟨1,0,0⟩ : V3 ℝ), ⟨-1,0,0⟩, ⟨0,1/2,0⟩] ⟨0,0,0⟩ 1
+    [(1/2, ⟨1,0,0⟩), (1/2, ⟨-1,0,0⟩)] := by
+  have n1 : ∀ a b c : ℝ, a * a + b * b + c * c = 1 → V3.norm (⟨a, b, c⟩ - (⟨0,0,0⟩ : V3 ℝ)) = 1 := by
+    intro a b c h
+    rw [V3.norm_eq, V3.normSq_eq]; simp only [V3.sub_x, V3.sub_y, V3.sub_z, sub_zero]
+    rw [h, Real.sqrt_one]
+  refine ⟨?_, ?_, ?_, ?_, ?_, ?_⟩
+  · intro p hp
+    simp only [List.mem_cons, List.not_mem_nil, or_false] at hp
+    unfold InBall BallSpec.dist
+    rcases hp with rfl | rfl | rfl
+    · rw [n1 _ _ _ (by norm_num)]
+    · rw [n1 _ _ _ (by norm_num)]
+    · rw [V3.norm_le_iff _ (by norm_num)]; simp only [V3.normSq_eq, V3.sub_x, V3.sub_y, V3.sub_z]; norm_num
+  · intro s hs
+    simp only [List.mem_cons, List.not_mem_nil, or_false] at hs
+    rcases hs with rfl | rfl <;> simp
+  · intro s hs
+    simp only [List.mem_cons, List.not_mem_nil, or_false] at hs
+    unfold BallSpec.dist
+    rcases hs with rfl | rfl <;> exact n1 _ _ _ (by norm_num)
+  · intro s hs
+    simp only [List.mem_cons, List.not_mem_nil, or_false] at hs
+    rcases hs with rfl | rfl <;> norm_num
+  · simp only [List.map_cons, List.map_nil, List.sum_cons, List.sum_nil]; norm_num
+  · ext <;> simp [V3.sum, V3.add, V3.smul, V3.zero, Scalar.lit]
+
+/-! ## 8. the retry loop around miniball, and rotating the centre back -/
+
+/-- the vertex list the `k`-th attempt (`k = 1, 2, …`) hands to miniball: the original vertices,
+then the ORIGINAL vertices under the rotation drawn after attempt `k − 1` -/
+def seenAt (rand : Nat → Quat ℝ) (V : List (V3 ℝ)) (k : Nat) : List (V3 ℝ) :=
+  if k = 1 then V else V.map (Quat.rotate (rand (k - 1)))
+
+/-- `current_rotation` during the `k`-th attempt -/
+def rotAt (rand : Nat → Quat ℝ) (k : Nat) : Quat ℝ := if k = 1 then Quat.one else rand (k - 1)
+
+theorem seenAt_eq_map (rand : Nat → Quat ℝ) (V : List (V3 ℝ)) (k : Nat) :
+    seenAt rand V k = V.map (Quat.rotate (rotAt rand k)) := by
+  unfold seenAt rotAt
+  split
+  · have : (Quat.rotate (Quat.one : Quat ℝ)) = id := by funext v; exact rotate_one v
+    rw [this, List.map_id]
+  · rfl
+
+/-- **C13 retry loop, success.** If the loop returns, it returns the result of the FIRST attempt on
+which miniball did not fail, together with the rotation in force during that attempt. -/
+theorem mbLoop_ok (mb : Nat → List (V3 ℝ) → Option (V3 ℝ × ℝ)) (rand : Nat → Quat ℝ) (V : List (V3 ℝ))
+    (fuel attempt : Nat) (c : V3 ℝ) (r2 : ℝ) (q : Quat ℝ)
+    (h : mbLoop mb rand V fuel attempt (rotAt rand (attempt + 1)) (seenAt rand V (attempt + 1))
+      = .ok (c, r2, q)) :
+    ∃ k, attempt < k ∧ k ≤ attempt + fuel ∧ mb k (seenAt rand V k) = some (c, r2) ∧ q = rotAt rand k ∧
+      ∀ j, attempt < j → j < k → mb j (seenAt rand V j) = none := by
+  induction fuel generalizing attempt with
+  | zero => simp [mbLoop] at h
+  | succ fuel ih =>
+    unfold mbLoop at h
+    simp only at h
+    split at h
+    · next c' r2' hs =>
+      injection h with h
+      injection h with h1 h23
+      injection h23 with h2 h3
+      subst h1 h2 h3
+      exact ⟨attempt + 1, by omega, by omega, hs, rfl, fun j h1 h2 => by omega⟩
+    · next hn =>
+      have e1 : rand (attempt + 1) = rotAt rand (attempt + 1 + 1) := by simp [rotAt]
+      have e2 : V.map (Quat.rotate (rotAt rand (attempt + 1 + 1))) = seenAt rand V (attempt + 1 + 1) := by
+        simp [seenAt, rotAt]
+      rw [e1, e2] at h
+      obtain ⟨k, hk1, hk2, hk3, hk4, hk5⟩ := ih (attempt + 1) h
+      refine ⟨k, by omega, by omega, hk3, hk4, ?_⟩
+      intro j hj1 hj2
+      by_cases hj : j = attempt + 1
+      · rw [hj]; exact hn
+      · exact hk5 j (by omega) hj2
+
+/-- **C13 retry loop, failure.** The loop raises — always `RuntimeError` — if and only if miniball
+failed on ALL the remaining attempts (in particular a success on the last allowed attempt is
+returned, not discarded). -/
+theorem mbLoop_error_iff (mb : Nat → List (V3 ℝ) → Option (V3 ℝ × ℝ)) (rand : Nat → Quat ℝ)
+    (V : List (V3 ℝ)) (fuel attempt : Nat) (e : String) :
+    mbLoop mb rand V fuel attempt (rotAt rand (attempt + 1)) (seenAt rand V (attempt + 1)) = .error e ↔
+      e = "RuntimeError" ∧ ∀ k, attempt < k → k ≤ attempt + fuel → mb k (seenAt rand V k) = none := by
+  induction fuel generalizing attempt with
+  | zero =>
+    simp only [mbLoop, Except.error.injEq, Nat.add_zero]
+    constructor
+    · intro h; exact ⟨h.symm, fun k h1 h2 => by omega⟩
+    · intro h; exact h.1.symm
+  | succ fuel ih =>
+    unfold mbLoop
+    simp only
+    have e1 : rand (attempt + 1) = rotAt rand (attempt + 1 + 1) := by simp [rotAt]
+    have e2 : V.map (Quat.rotate (rotAt rand (attempt + 1 + 1))) = seenAt rand V (attempt + 1 + 1) := by
+      simp [seenAt, rotAt]
+    split
+    · next c' r2' hs =>
+      constructor
+      · intro h; cases h
+      · intro h
+        have := h.2 (attempt + 1) (by omega) (by omega)
+        rw [hs] at this; cases this
+    · next hn =>
+      rw [e1, e2, ih (attempt + 1)]
+      constructor
+      · rintro ⟨he, hall⟩
+        refine ⟨he, fun k h1 h2 => ?_⟩
+        by_cases hk : k = attempt + 1
+        · rw [hk]; exact hn
+        · exact hall k (by omega) (by omega)
+      · rintro ⟨he, hall⟩
+        exact ⟨he, fun k h1 h2 => hall k (by omega) (by omega)⟩
+
+/-- rotating back: if `(c, r)` is the minimal bounding ball of the rotated points, then
+`(rotate(conj q, c), r)` is the minimal bounding ball of the original points (unit `q`). -/
+theorem minimalBounding_rotate_back {q : Quat ℝ} (hq : Quat.normSq q = 1) (V : List (V3 ℝ))
+    (c : V3 ℝ) (r : ℝ) (h : IsMinimalBounding c r (V.map (Quat.rotate q))) :
+    IsMinimalBounding (Quat.rotate (Quat.conj q) c) r V := by
+  constructor
+  · intro v hv
+    have := h.1 (Quat.rotate q v) (List.mem_map.mpr ⟨v, hv, rfl⟩)
+    unfold InBall BallSpec.dist at this ⊢
+    rw [← norm_rotate_sub hq, rotate_rotate_conj_unit hq]
+    exact this
+  · intro c' r' hb
+    apply h.2 (Quat.rotate q c') r'
+    intro p hp
+    obtain ⟨v, hv, rfl⟩ := List.mem_map.mp hp
+    have := hb v hv
+    unfold InBall BallSpec.dist at this ⊢
+    rw [norm_rotate_sub hq]
+    exact this
+
+theorem rotAt_unit (rand : Nat → Quat ℝ) (hrand : ∀ k, Quat.normSq (rand k) = 1) (k : Nat) :
+    Quat.normSq (rotAt rand k) = 1 := by
+  unfold rotAt; split
+  · exact normSq_one
+  · exact hrand _
+
+/-- **C13 minimal bounding ball.** Contracts: every random rotation is a unit quaternion, and whenever
+miniball returns `(c, r²)` for a point list, `(c, √r²)` is the minimal enclosing ball of THAT list
+(checked per run through `miniball_optimal`). Then whatever `minimal_bounding_sphere/circle`
+returns contains every vertex of the shape and is the smallest such ball — no matter how many
+attempts failed before. -/
+theorem minimal_bounding_spec (mb : Nat → List (V3 ℝ) → Option (V3 ℝ × ℝ)) (rand : Nat → Quat ℝ)
+    (V : List (V3 ℝ)) (hrand : ∀ k, Quat.normSq (rand k) = 1)
+    (hmb : ∀ k P c r2, mb k P = some (c, r2) → IsMinimalBounding c (Real.sqrt r2) P)
+    {B : Ball ℝ} (h : minimalBounding mb rand V = .ok B) :
+    IsMinimalBounding B.center B.radius V := by
+  unfold minimalBounding at h
+  simp only [bind, Except.bind] at h
+  split at h
+  · cases h
+  · next res hres =>
+    obtain ⟨c, r2, q⟩ := res
+    simp only at h
+    obtain ⟨h1, h2, _⟩ := mkBall_ok h
+    have h0 : mbLoop mb rand V maxAttempts 0 (rotAt rand (0 + 1)) (seenAt rand V (0 + 1)) = .ok (c, r2, q) := by
+      simpa [rotAt, seenAt] using hres
+    obtain ⟨k, _, _, hk, hq, _⟩ := mbLoop_ok mb rand V maxAttempts 0 c r2 q h0
+    have hmin := hmb k _ c r2 hk
+    rw [seenAt_eq_map, ← hq] at hmin
+    have hunit : Quat.normSq q = 1 := by rw [hq]; exact rotAt_unit rand hrand k
+    rw [h1, h2]
+    exact minimalBounding_rotate_back hunit V c _ hmin
+
+/-- it raises `RuntimeError` exactly when all `max_attempts = 10` attempts failed -/
+theorem minimal_bounding_raises_iff (mb : Nat → List (V3 ℝ) → Option (V3 ℝ × ℝ)) (rand : Nat → Quat ℝ)
+    (V : List (V3 ℝ)) :
+    minimalBounding mb rand V = .error "RuntimeError" ↔
+      ∀ k, 1 ≤ k → k ≤ 10 → mb k (seenAt rand V k) = none := by
+  have key := mbLoop_error_iff mb rand V maxAttempts 0 "RuntimeError"
+  have e0 : mbLoop mb rand V maxAttempts 0 (rotAt rand (0 + 1)) (seenAt rand V (0 + 1)) =
+      mbLoop mb rand V maxAttempts 0 Quat.one V := by simp [rotAt, seenAt]
+  rw [e0] at key
+  unfold minimalBounding
+  simp only [bind, Except.bind]
+  constructor
+  · intro h
+    split at h
+    · next e he =>
+      injection h with h; subst h
+      have := (key.mp he).2
+      intro k h1 h2
+      exact this k (by omega) (by simpa [maxAttempts] using h2)
+    · next res hres =>
+      obtain ⟨c, r2, q⟩ := res
+      simp only at h
+      exact absurd (mkBall_error h).1 (by decide)
+  · intro h
+    have := key.mpr ⟨rfl, fun k h1 h2 => h k (by omega) (by simpa [maxAttempts] using h2)⟩
+    rw [this]
+
+/-- a run in which the first NINE attempts fail and the tenth succeeds returns a ball (the
+regression of a5ff83d: the old code raised here) -/
+example : ∃ B, minimalBounding (fun k _ => if k < 10 then none else some ((⟨0,0,0⟩ : V3 ℝ), (1 : ℝ)))
+    (fun _ => Quat.one) [(⟨1,0,0⟩ : V3 ℝ), ⟨-1,0,0⟩] = .ok B := by
+  refine ⟨⟨1, Quat.rotate (Quat.conj Quat.one) ⟨0,0,0⟩⟩, ?_⟩
+  simp [minimalBounding, mbLoop, maxAttempts, bind, Except.bind, mkBall, Scalar.lit]
+
+/-! ## 9. curved shapes: the balls are those with the largest / smallest semi-axis -/
+
+/-- `Circle` / `Sphere`: all the ball getters return the shape itself -/
+theorem round_ball_spec (r : ℝ) (cen : V3 ℝ) {B : Ball ℝ} (h : roundBall r cen = .ok B) :
+    B.radius = r ∧ B.center = cen := ⟨(mkBall_ok h).1, (mkBall_ok h).2.1⟩
+
+theorem ellipse_bounding_spec (a b : ℝ) (cen : V3 ℝ) {B : Ball ℝ} (h : ellipseBounding a b cen = .ok B) :
+    B.radius = max a b ∧ B.center = cen := by
+  obtain ⟨h1, h2, _⟩ := mkBall_ok h; exact ⟨by rw [h1, Scalar.max_real], h2⟩
+
+theorem ellipse_bounded_spec (a b : ℝ) (cen : V3 ℝ) {B : Ball ℝ} (h : ellipseBounded a b cen = .ok B) :
+    B.radius = min a b ∧ B.center = cen := by
+  obtain ⟨h1, h2, _⟩ := mkBall_ok h; exact ⟨by rw [h1, Scalar.min_real], h2⟩
+
+theorem ellipsoid_bounding_spec (a b c : ℝ) (cen : V3 ℝ) {B : Ball ℝ}
+    (h : ellipsoidBounding a b c cen = .ok B) : B.radius = max (max a b) c ∧ B.center = cen := by
+  obtain ⟨h1, h2, _⟩ := mkBall_ok h; exact ⟨by rw [h1, Scalar.max_real, Scalar.max_real], h2⟩
+
+theorem ellipsoid_bounded_spec (a b c : ℝ) (cen : V3 ℝ) {B : Ball ℝ}
+    (h : ellipsoidBounded a b c cen = .ok B) : B.radius = min (min a b) c ∧ B.center = cen := by
+  obtain ⟨h1, h2, _⟩ := mkBall_ok h; exact ⟨by rw [h1, Scalar.min_real, Scalar.min_real], h2⟩
+
+theorem sq_le_scale {a M d : ℝ} (ha : 0 < a) (hM : a ≤ M) : d * d ≤ M * M * ((d / a) * (d / a)) := by
+  have h1 : d = a * (d / a) := by field_simp
+  have h2 : a * a ≤ M * M := mul_self_le_mul_self (le_of_lt ha) hM
+  have h3 : 0 ≤ (d / a) * (d / a) := mul_self_nonneg _
+  calc d * d = a * a * ((d / a) * (d / a)) := by rw [← mul_mul_mul_comm, ← h1]
+    _ ≤ M * M * ((d / a) * (d / a)) := mul_le_mul_of_nonneg_right h2 h3
+
+theorem sq_div_le {a m d : ℝ} (hm : 0 < m) (hma : m ≤ a) : (d / a) * (d / a) ≤ (d * d) / (m * m) := by
+  have ha : 0 < a := lt_of_lt_of_le hm hma
+  rw [div_mul_div_comm]
+  apply div_le_div_of_nonneg_left (mul_self_nonneg d) (mul_pos hm hm)
+  exact mul_self_le_mul_self (le_of_lt hm) hma
+
+/-- a ball containing two points `cen ± d` has radius at least `‖d‖` (parallelogram law) -/
+theorem antipodal_radius (cen d c' : V3 ℝ) (r' : ℝ) (h1 : InBall c' r' (cen + d))
+    (h2 : InBall c' r' (cen - d)) : V3.norm d ≤ r' := by
+  unfold InBall BallSpec.dist at h1 h2
+  have hr' : 0 ≤ r' := le_trans (V3.norm_nonneg _) h1
+  rw [V3.norm_le_iff _ hr'] at h1 h2 ⊢
+  have hp : V3.normSq (cen + d - c') + V3.normSq (cen - d - c') =
+      2 * V3.normSq (cen - c') + 2 * V3.normSq d := by
+    simp only [V3.normSq_eq, V3.sub_x, V3.sub_y, V3.sub_z, V3.add_x, V3.add_y, V3.add_z]; ring
+  have := V3.normSq_nonneg (cen - c')
+  linarith
+
+/-- **C13 ellipsoid, bounding sphere.** The sphere about the centre with the LARGEST semi-axis as
+radius contains the ellipsoid … -/
+theorem ellipsoid_bounding_contains (a b c : ℝ) (ha : 0 < a) (hb : 0 < b) (hc : 0 < c) (cen p : V3 ℝ)
+    (h : InEllipsoid a b c cen p) : InBall cen (max (max a b) c) p := by
+  have hMa : a ≤ max (max a b) c := le_trans (le_max_left a b) (le_max_left _ c)
+  have hMb : b ≤ max (max a b) c := le_trans (le_max_right a b) (le_max_left _ c)
+  have hMc : c ≤ max (max a b) c := le_max_right _ c
+  have hM : 0 ≤ max (max a b) c := le_trans (le_of_lt ha) hMa
+  unfold InBall BallSpec.dist
+  rw [V3.norm_le_iff _ hM, V3.normSq_eq]
+  simp only [V3.sub_x, V3.sub_y, V3.sub_z]
+  unfold InEllipsoid at h
+  simp only [Scalar.sqr_real, Scalar.lit_real, Nat.cast_one] at h
+  have h1 := sq_le_scale (d := p.x - cen.x) ha hMa
+  have h2 := sq_le_scale (d := p.y - cen.y) hb hMb
+  have h3 := sq_le_scale (d := p.z - cen.z) hc hMc
+  have hMM : 0 ≤ max (max a b) c * max (max a b) c := mul_self_nonneg _
+  nlinarith [mul_le_mul_of_nonneg_left h hMM]
+
+theorem inEllipsoid_axis_x (a b c : ℝ) (ha : 0 < a) (cen : V3 ℝ) (s : ℝ) (hs : s * s = a * a) :
+    InEllipsoid a b c cen ⟨cen.x + s, cen.y, cen.z⟩ := by
+  unfold InEllipsoid
+  simp only [Scalar.sqr_real, Scalar.lit_real, Nat.cast_one, add_sub_cancel_left, sub_self, zero_div,
+    mul_zero, add_zero]
+  rw [div_mul_div_comm, hs, div_self (ne_of_gt (mul_pos ha ha))]
+
+theorem inEllipsoid_axis_y (a b c : ℝ) (hb : 0 < b) (cen : V3 ℝ) (s : ℝ) (hs : s * s = b * b) :
+    InEllipsoid a b c cen ⟨cen.x, cen.y + s, cen.z⟩ := by
+  unfold InEllipsoid
+  simp only [Scalar.sqr_real, Scalar.lit_real, Nat.cast_one, add_sub_cancel_left, sub_self, zero_div,
+    mul_zero, add_zero, zero_add]
+  rw [div_mul_div_comm, hs, div_self (ne_of_gt (mul_pos hb hb))]
+
+theorem inEllipsoid_axis_z (a b c : ℝ) (hc : 0 < c) (cen : V3 ℝ) (s : ℝ) (hs : s * s = c * c) :
+    InEllipsoid a b c cen ⟨cen.x, cen.y, cen.z + s⟩ := by
+  unfold InEllipsoid
+  simp only [Scalar.sqr_real, Scalar.lit_real, Nat.cast_one, add_sub_cancel_left, sub_self, zero_div,
+    mul_zero, add_zero, zero_add]
+  rw [div_mul_div_comm, hs, div_self (ne_of_gt (mul_pos hc hc))]
+
+theorem norm_axis (x y z s : ℝ) (hs : 0 ≤ s) (h : x * x + y * y + z * z = s * s) :
+    V3.norm (⟨x, y, z⟩ : V3 ℝ) = s := by
+  rw [V3.norm_eq_iff _ hs, V3.normSq_eq]; exact h
+
+/-- … and NO smaller sphere (with any centre) does: it is the minimal bounding sphere. -/
+theorem ellipsoid_bounding_minimal (a b c : ℝ) (ha : 0 < a) (hb : 0 < b) (hc : 0 < c) (cen c' : V3 ℝ)
+    (r' : ℝ) (hcont : ∀ p, InEllipsoid a b c cen p → InBall c' r' p) : max (max a b) c ≤ r' := by
+  have hxa : a ≤ r' := by
+    have h1 := hcont _ (inEllipsoid_axis_x a b c ha cen a rfl)
+    have h2 := hcont _ (inEllipsoid_axis_x a b c ha cen (-a) (by ring))
+    have := antipodal_radius cen ⟨a, 0, 0⟩ c' r' (by convert h1 using 1; ext <;> simp)
+      (by convert h2 using 1; ext <;> simp <;> ring)
+    rwa [norm_axis a 0 0 a (le_of_lt ha) (by ring)] at this
+  have hxb : b ≤ r' := by
+    have h1 := hcont _ (inEllipsoid_axis_y a b c hb cen b rfl)
+    have h2 := hcont _ (inEllipsoid_axis_y a b c hb cen (-b) (by ring))
+    have := antipodal_radius cen ⟨0, b, 0⟩ c' r' (by convert h1 using 1; ext <;> simp)
+      (by convert h2 using 1; ext <;> simp <;> ring)
+    rwa [norm_axis 0 b 0 b (le_of_lt hb) (by ring)] at this
+  have hxc : c ≤ r' := by
+    have h1 := hcont _ (inEllipsoid_axis_z a b c hc cen c rfl)
+    have h2 := hcont _ (inEllipsoid_axis_z a b c hc cen (-c) (by ring))
+    have := antipodal_radius cen ⟨0, 0, c⟩ c' r' (by convert h1 using 1; ext <;> simp)
+      (by convert h2 using 1; ext <;> simp <;> ring)
+    rwa [norm_axis 0 0 c c (le_of_lt hc) (by ring)] at this
+  exact max_le (max_le hxa hxb) hxc
+
+/-- **C13 ellipsoid, bounded sphere.** The sphere about the centre with the SMALLEST semi-axis as radius
+lies inside the ellipsoid … -/
+theorem ellipsoid_bounded_inside (a b c : ℝ) (ha : 0 < a) (hb : 0 < b) (hc : 0 < c) (cen p : V3 ℝ)
+    (h : InBall cen (min (min a b) c) p) : InEllipsoid a b c cen p := by
+  have hma : min (min a b) c ≤ a := le_trans (min_le_left _ c) (min_le_left a b)
+  have hmb : min (min a b) c ≤ b := le_trans (min_le_left _ c) (min_le_right a b)
+  have hmc : min (min a b) c ≤ c := min_le_right _ c
+  have hm : 0 < min (min a b) c := lt_min (lt_min ha hb) hc
+  unfold InBall BallSpec.dist at h
+  rw [V3.norm_le_iff _ (le_of_lt hm), V3.normSq_eq] at h
+  simp only [V3.sub_x, V3.sub_y, V3.sub_z] at h
+  unfold InEllipsoid
+  simp only [Scalar.sqr_real, Scalar.lit_real, Nat.cast_one]
+  have h1 := sq_div_le (d := p.x - cen.x) hm hma
+  have h2 := sq_div_le (d := p.y - cen.y) hm hmb
+  have h3 := sq_div_le (d := p.z - cen.z) hm hmc
+  have hmm : 0 < min (min a b) c * min (min a b) c := mul_pos hm hm
+  have h4 : ((p.x - cen.x) * (p.x - cen.x) + (p.y - cen.y) * (p.y - cen.y) + (p.z - cen.z) * (p.z - cen.z))
+      / (min (min a b) c * min (min a b) c) ≤ 1 := (div_le_one hmm).mpr h
+  rw [add_div, add_div] at h4
+  linarith
+
+/-- … and no larger sphere (with any centre) does: it is a maximal bounded sphere. -/
+theorem ellipsoid_bounded_maximal (a b c : ℝ) (ha : 0 < a) (hb : 0 < b) (hc : 0 < c) (cen c' : V3 ℝ)
+    (r' : ℝ) (hr' : 0 ≤ r') (hin : ∀ p, InBall c' r' p → InEllipsoid a b c cen p) :
+    r' ≤ min (min a b) c := by
+  have key : ∀ (s : ℝ) (u : ℝ), 0 < s → ((u + r') / s) * ((u + r') / s) ≤ 1 →
+      ((u - r') / s) * ((u - r') / s) ≤ 1 → r' ≤ s := by
+    intro s u hs h1 h2
+    rw [div_mul_div_comm, div_le_one (mul_pos hs hs)] at h1 h2
+    by_contra hlt
+    push Not at hlt
+    nlinarith [mul_self_nonneg u]
+  have inb : ∀ d : V3 ℝ, V3.normSq d = r' * r' → InBall c' r' (c' + d) := by
+    intro d hd
+    unfold InBall BallSpec.dist
+    have : c' + d - c' = d := by ext <;> simp
+    rw [this, V3.norm_le_iff _ hr', hd]
+  have hxa : r' ≤ a := by
+    have h1 := hin _ (inb ⟨r', 0, 0⟩ (by simp [V3.normSq_eq]))
+    have h2 := hin _ (inb ⟨-r', 0, 0⟩ (by simp [V3.normSq_eq]))
+    unfold InEllipsoid at h1 h2
+    simp only [Scalar.sqr_real, Scalar.lit_real, Nat.cast_one, V3.add_x, V3.add_y, V3.add_z, add_zero] at h1 h2
+    apply key a (c'.x - cen.x) ha
+    · have e : c'.x - cen.x + r' = c'.x + r' - cen.x := by ring
+      rw [e]; nlinarith [mul_self_nonneg ((c'.y - cen.y) / b), mul_self_nonneg ((c'.z - cen.z) / c)]
+    · have e : c'.x - cen.x - r' = c'.x + -r' - cen.x := by ring
+      rw [e]; nlinarith [mul_self_nonneg ((c'.y - cen.y) / b), mul_self_nonneg ((c'.z - cen.z) / c)]
+  have hxb : r' ≤ b := by
+    have h1 := hin _ (inb ⟨0, r', 0⟩ (by simp [V3.normSq_eq]))
+    have h2 := hin _ (inb ⟨0, -r', 0⟩ (by simp [V3.normSq_eq]))
+    unfold InEllipsoid at h1 h2
+    simp only [Scalar.sqr_real, Scalar.lit_real, Nat.cast_one, V3.add_x, V3.add_y, V3.add_z, add_zero] at h1 h2
+    apply key b (c'.y - cen.y) hb
+    · have e : c'.y - cen.y + r' = c'.y + r' - cen.y := by ring
+      rw [e]; nlinarith [mul_self_nonneg ((c'.x - cen.x) / a), mul_self_nonneg ((c'.z - cen.z) / c)]
+    · have e : c'.y - cen.y - r' = c'.y + -r' - cen.y := by ring
+      rw [e]; nlinarith [mul_self_nonneg ((c'.x - cen.x) / a), mul_self_nonneg ((c'.z - cen.z) / c)]
+  have hxc : r' ≤ c := by
+    have h1 := hin _ (inb ⟨0, 0, r'⟩ (by simp [V3.normSq_eq]))
+    have h2 := hin _ (inb ⟨0, 0, -r'⟩ (by simp [V3.normSq_eq]))
+    unfold InEllipsoid at h1 h2
+    simp only [Scalar.sqr_real, Scalar.lit_real, Nat.cast_one, V3.add_x, V3.add_y, V3.add_z, add_zero] at h1 h2
+    apply key c (c'.z - cen.z) hc
+    · have e : c'.z - cen.z + r' = c'.z + r' - cen.z := by ring
+      rw [e]; nlinarith [mul_self_nonneg ((c'.x - cen.x) / a), mul_self_nonneg ((c'.y - cen.y) / b)]
+    · have e : c'.z - cen.z - r' = c'.z + -r' - cen.z := by ring
+      rw [e]; nlinarith [mul_self_nonneg ((c'.x - cen.x) / a), mul_self_nonneg ((c'.y - cen.y) / b)]
+  exact le_min (le_min hxa hxb) hxc
+
+/-! the ellipse (in its plane `z = cen.z`) -/
+
+/-- **C13 ellipse, bounding circle**: radius `max a b` about the centre contains the ellipse … -/
+theorem ellipse_bounding_contains (a b : ℝ) (ha : 0 < a) (hb : 0 < b) (cen p : V3 ℝ)
+    (h : InEllipse a b cen p) : InBall cen (max a b) p := by
+  have hM : 0 ≤ max a b := le_trans (le_of_lt ha) (le_max_left a b)
+  obtain ⟨hz, h⟩ := h
+  unfold InBall BallSpec.dist
+  rw [V3.norm_le_iff _ hM, V3.normSq_eq]
+  simp only [V3.sub_x, V3.sub_y, V3.sub_z, hz, sub_self, mul_zero, add_zero]
+  simp only [Scalar.sqr_real, Scalar.lit_real, Nat.cast_one] at h
+  have h1 := sq_le_scale (d := p.x - cen.x) ha (le_max_left a b)
+  have h2 := sq_le_scale (d := p.y - cen.y) hb (le_max_right a b)
+  have hMM : 0 ≤ max a b * max a b := mul_self_nonneg _
+  nlinarith [mul_le_mul_of_nonneg_left h hMM]
+
+/-- … and every ball containing the ellipse has radius `≥ max a b`. -/
+theorem ellipse_bounding_minimal (a b : ℝ) (ha : 0 < a) (hb : 0 < b) (cen c' : V3 ℝ) (r' : ℝ)
+    (hcont : ∀ p, InEllipse a b cen p → InBall c' r' p) : max a b ≤ r' := by
+  have ex : ∀ s, s * s = a * a → InEllipse a b cen ⟨cen.x + s, cen.y, cen.z⟩ := by
+    intro s hs
+    refine ⟨rfl, ?_⟩
+    simp only [Scalar.sqr_real, Scalar.lit_real, Nat.cast_one, add_sub_cancel_left, sub_self, zero_div,
+      mul_zero, add_zero]
+    rw [div_mul_div_comm, hs, div_self (ne_of_gt (mul_pos ha ha))]
+  have ey : ∀ s, s * s = b * b → InEllipse a b cen ⟨cen.x, cen.y + s, cen.z⟩ := by
+    intro s hs
+    refine ⟨rfl, ?_⟩
+    simp only [Scalar.sqr_real, Scalar.lit_real, Nat.cast_one, add_sub_cancel_left, sub_self, zero_div,
+      mul_zero, zero_add]
+    rw [div_mul_div_comm, hs, div_self (ne_of_gt (mul_pos hb hb))]
+  have hxa : a ≤ r' := by
+    have h1 := hcont _ (ex a rfl)
+    have h2 := hcont _ (ex (-a) (by ring))
+    have := antipodal_radius cen ⟨a, 0, 0⟩ c' r' (by convert h1 using 1; ext <;> simp)
+      (by convert h2 using 1; ext <;> simp <;> ring)
+    rwa [norm_axis a 0 0 a (le_of_lt ha) (by ring)] at this
+  have hxb : b ≤ r' := by
+    have h1 := hcont _ (ey b rfl)
+    have h2 := hcont _ (ey (-b) (by ring))
+    have := antipodal_radius cen ⟨0, b, 0⟩ c' r' (by convert h1 using 1; ext <;> simp)
+      (by convert h2 using 1; ext <;> simp <;> ring)
+    rwa [norm_axis 0 b 0 b (le_of_lt hb) (by ring)] at this
+  exact max_le hxa hxb
+
+/-- **C13 ellipse, bounded circle**: the disc of radius `min a b` about the centre (in the ellipse's
+plane) lies inside the ellipse. -/
+theorem ellipse_bounded_inside (a b : ℝ) (ha : 0 < a) (hb : 0 < b) (cen p : V3 ℝ)
+    (hz : p.z = cen.z) (h : InBall cen (min a b) p) : InEllipse a b cen p := by
+  have hm : 0 < min a b := lt_min ha hb
+  refine ⟨hz, ?_⟩
+  unfold InBall BallSpec.dist at h
+  rw [V3.norm_le_iff _ (le_of_lt hm), V3.normSq_eq] at h
+  simp only [V3.sub_x, V3.sub_y, V3.sub_z, hz, sub_self, mul_zero, add_zero] at h
+  simp only [Scalar.sqr_real, Scalar.lit_real, Nat.cast_one]
+  have h1 := sq_div_le (d := p.x - cen.x) hm (min_le_left a b)
+  have h2 := sq_div_le (d := p.y - cen.y) hm (min_le_right a b)
+  have hmm : 0 < min a b * min a b := mul_pos hm hm
+  have h4 : ((p.x - cen.x) * (p.x - cen.x) + (p.y - cen.y) * (p.y - cen.y)) / (min a b * min a b) ≤ 1 :=
+    (div_le_one hmm).mpr h
+  rw [add_div] at h4
+  linarith
+
+/-- … and no larger disc in that plane (with any centre) does. -/
+theorem ellipse_bounded_maximal (a b : ℝ) (ha : 0 < a) (hb : 0 < b) (cen c' : V3 ℝ) (r' : ℝ)
+    (hr' : 0 ≤ r') (hc' : c'.z = cen.z)
+    (hin : ∀ p, p.z = cen.z → InBall c' r' p → InEllipse a b cen p) : r' ≤ min a b := by
+  have key : ∀ (s : ℝ) (u : ℝ), 0 < s → ((u + r') / s) * ((u + r') / s) ≤ 1 →
+      ((u - r') / s) * ((u - r') / s) ≤ 1 → r' ≤ s := by
+    intro s u hs h1 h2
+    rw [div_mul_div_comm, div_le_one (mul_pos hs hs)] at h1 h2
+    by_contra hlt
+    push Not at hlt
+    nlinarith [mul_self_nonneg u]
+  have inb : ∀ d : V3 ℝ, V3.normSq d = r' * r' → InBall c' r' (c' + d) := by
+    intro d hd
+    unfold InBall BallSpec.dist
+    have : c' + d - c' = d := by ext <;> simp
+    rw [this, V3.norm_le_iff _ hr', hd]
+  have hxa : r' ≤ a := by
+    have h1 := (hin _ (by simpa using hc') (inb ⟨r', 0, 0⟩ (by simp [V3.normSq_eq]))).2
+    have h2 := (hin _ (by simpa using hc') (inb ⟨-r', 0, 0⟩ (by simp [V3.normSq_eq]))).2
+    simp only [Scalar.sqr_real, Scalar.lit_real, Nat.cast_one, V3.add_x, V3.add_y, add_zero] at h1 h2
+    apply key a (c'.x - cen.x) ha
+    · have e : c'.x - cen.x + r' = c'.x + r' - cen.x := by ring
+      rw [e]; nlinarith [mul_self_nonneg ((c'.y - cen.y) / b)]
+    · have e : c'.x - cen.x - r' = c'.x + -r' - cen.x := by ring
+      rw [e]; nlinarith [mul_self_nonneg ((c'.y - cen.y) / b)]
+  have hxb : r' ≤ b := by
+    have h1 := (hin _ (by simpa using hc') (inb ⟨0, r', 0⟩ (by simp [V3.normSq_eq]))).2
+    have h2 := (hin _ (by simpa using hc') (inb ⟨0, -r', 0⟩ (by simp [V3.normSq_eq]))).2
+    simp only [Scalar.sqr_real, Scalar.lit_real, Nat.cast_one, V3.add_x, V3.add_y, add_zero] at h1 h2
+    apply key b (c'.y - cen.y) hb
+    · have e : c'.y - cen.y + r' = c'.y + r' - cen.y := by ring
+      rw [e]; nlinarith [mul_self_nonneg ((c'.x - cen.x) / a)]
+    · have e : c'.y - cen.y - r' = c'.y + -r' - cen.y := by ring
+      rw [e]; nlinarith [mul_self_nonneg ((c'.x - cen.x) / a)]
+  exact le_min hxa hxb
+
+/-- a sphere is the ellipsoid with three equal semi-axes (so `Sphere`'s getters are covered by the
+ellipsoid theorems: `max = min = radius`) and a circle the ellipse with two equal ones -/
+example (r : ℝ) : max (max r r) r = r ∧ min (min r r) r = r := by simp
+
 end
